@@ -1436,6 +1436,41 @@ impl Gen {
         self.tx("alice", SMsg::FmPosWithdraw("u-pm2y".into(), Some(true)), vec![]);
     }
 
+    /// 18-decimals magnitudes in the reward arithmetic: LP weights and per-epoch emissions of 10^21 … 10^25, so that
+    /// emission x weight is far beyond 2^128 (the share must be computed in 256 bits); two and three stakers with
+    /// weight ratios 1:3 and 1:3:16, queries before every claim, claims split with until_epoch, an expansion, a close
+    fn probe_big_rewards(&mut self) {
+        let Some(p) = self.mk_pool("a", &[("aweth", 18), ("uusd", 6)], None, Self::std_fees()) else { return; };
+        let lp = self.lp_of(&p);
+        let big = 10u128.pow(24);
+        for u in ["alice", "bob", "carol"] { self.plain_provide(u, &p, vec![("aweth".into(), 40 * big), ("uusd".into(), 40 * big)], None); }
+        let k = 1 + self.rng.below(3) as u128;
+        self.tx("alice", SMsg::FmPosCreate { id: Some("a".into()), dur: DAY, receiver: None }, vec![(lp.clone(), k * big / 1000)]);
+        self.tx("bob", SMsg::FmPosCreate { id: Some("b".into()), dur: DAY, receiver: None }, vec![(lp.clone(), 3 * k * big / 1000)]);
+        self.mk_farm("carol", &lp, "aweth", k * big / 1000, 6, Some("w".into()), 1);
+        self.mk_farm("carol", &lp, "uom", 10 * big + 7, 6, Some("x".into()), 2);
+        self.next_epoch();
+        self.next_epoch();
+        self.q_rewards("alice", None); self.q_rewards("bob", None);
+        self.q_rewards("bob", Some(1));
+        self.tx("bob", SMsg::FmClaim(Some(1)), vec![]);
+        self.q_rewards("bob", None);
+        self.tx("bob", SMsg::FmClaim(None), vec![]);
+        self.tx("carol", SMsg::FmPosCreate { id: Some("c".into()), dur: 31_556_926, receiver: None }, vec![(lp.clone(), k * big)]);
+        self.tx("alice", SMsg::FmPosExpand("u-a".into()), vec![(lp.clone(), big)]);
+        self.next_epoch();
+        for u in ["alice", "bob", "carol"] { self.q_rewards(u, None); self.tx(u, SMsg::FmClaim(None), vec![]); }
+        self.next_epoch();
+        self.q_rewards("alice", None);
+        self.tx("alice", SMsg::FmPosClose("u-a".into(), None), vec![]);
+        self.tx("alice", SMsg::FmClaim(None), vec![]);
+        self.tx("alice", SMsg::FmPosClose("u-a".into(), Some((lp.clone(), big / 3))), vec![]);
+        for _ in 0..3 { self.next_epoch(); }
+        for u in ["alice", "bob", "carol"] { self.q_rewards(u, None); self.tx(u, SMsg::FmClaim(None), vec![]); }
+        self.tx("carol", SMsg::FmCloseFarm("m-w".into()), vec![]);
+        self.tx("carol", SMsg::FmCloseFarm("m-x".into()), vec![]);
+    }
+
     /// a farm driven to (and past) the end of its budget: a user's weight inflated by the until_epoch synchronisation
     /// (finding F-until) makes a multi-epoch claim whose sum exceeds the remainder while no single epoch does; then the
     /// other stakers' claims, a closing of the farm and the withdrawals
@@ -1647,7 +1682,7 @@ pub fn generate_probes(seed: u64, count: usize) -> Family {
         "From MD.Model Require Import Base Ownable Epoch PoolMath Types PoolManager FarmManager Chain CasesChain.",
         "chain_case",
         "run_chain_case",
-        "deterministic probe scripts, one per narrow situation (asset order after a slippage-protected deposit, foreign lock identifiers, malformed route junctions, extra fees, all feature-switch combinations, single-asset corner cases, farm funds in the fee denom, expiry windows, penalty sharing, thirds, position limit, empty claims, fractional weights, failing refunds, huge and unusual decimals, every position operation against every position state, a farm driven past the end of its budget, identifiers meeting objects of the same or a related name, configuration values outside the ranges the code relies on); amounts vary with the PRNG; full canonical snapshot compared after every operation",
+        "deterministic probe scripts, one per narrow situation (asset order after a slippage-protected deposit, foreign lock identifiers, malformed route junctions, extra fees, all feature-switch combinations, single-asset corner cases, farm funds in the fee denom, expiry windows, penalty sharing, thirds, position limit, empty claims, fractional weights, failing refunds, huge and unusual decimals, every position operation against every position state, a farm driven past the end of its budget, identifiers meeting objects of the same or a related name, configuration values outside the ranges the code relies on, 18-decimals magnitudes in the reward arithmetic); amounts vary with the PRNG; full canonical snapshot compared after every operation",
     );
     type F = fn(&mut Gen);
     let list: Vec<(&str, F)> = vec![
@@ -1656,7 +1691,7 @@ pub fn generate_probes(seed: u64, count: usize) -> Family {
         ("farm-funds", Gen::probe_farm_funds as F), ("expiry-window", Gen::probe_expiry_window as F), ("penalty-split", Gen::probe_penalty_split as F),
         ("thirds", Gen::probe_thirds as F), ("position-limit", Gen::probe_position_limit as F), ("empty-claims", Gen::probe_empty_claims as F),
         ("fractional-weights", Gen::probe_fractional_weights as F), ("failing-refunds", Gen::probe_failing_refunds as F), ("big-and-decimals", Gen::probe_big_and_decimals as F),
-        ("position-states", Gen::probe_position_states as F), ("exhaustion", Gen::probe_exhaustion as F), ("identifier-namespaces", Gen::probe_identifier_namespaces as F), ("config-extremes", Gen::probe_config_extremes as F),
+        ("position-states", Gen::probe_position_states as F), ("exhaustion", Gen::probe_exhaustion as F), ("identifier-namespaces", Gen::probe_identifier_namespaces as F), ("config-extremes", Gen::probe_config_extremes as F), ("big-rewards", Gen::probe_big_rewards as F),
     ];
     let mut rng = Rng::new(seed ^ 0x9B0B);
     let mut i = 0usize;
